@@ -217,6 +217,16 @@ Updates(asn4) ==
 NoDupKinds(u) == \A i, j \in 1..Len(u.attrs) : i # j => u.attrs[i][1] # u.attrs[j][1]
 UpdatePool(asn4) == {u \in Updates(asn4) : NoDupKinds(u)}
 
+\* the wider pool of the thorough tier: every pair of attribute VALUES (not only kinds), every mandatory value next to
+\* every optional value, every attribute value with an announce + withdraw pair
+OptValues(asn4) == {a \in AttrValues(asn4) : a[1] \in OptKinds}
+ManValues(asn4) == {a \in AttrValues(asn4) : a[1] \in {1, 2, 3}}
+UpdatesWide(asn4) ==
+   {Upd(<<>>, Base(asn4) \o <<a, b>>, N1) : a, b \in OptValues(asn4)}
+   \cup {Upd(<<>>, Append(WithAttr(asn4, a), b), N1) : a \in ManValues(asn4), b \in OptValues(asn4)}
+   \cup {Upd(<<P6[i]>>, WithAttr(asn4, a), <<P6[j]>>) : i, j \in {1, 2, 5}, a \in AttrValues(asn4)}
+WidePool(asn4) == {u \in UpdatesWide(asn4) : NoDupKinds(u) /\ (Len(u.attrs) = 5 => u.attrs[4][1] < u.attrs[5][1])} \ UpdatePool(asn4)
+
 \* add-path vectors: one to three prefixes with identifiers from the boundary pool
 PathIds == {<<0, 0, 0, 0>>, <<0, 0, 0, 1>>, <<0, 1, 0, 0>>, <<255, 255, 255, 255>>}
 AddPathVecs ==
